@@ -4,7 +4,6 @@ Every case is emitted twice: `op ...` (the implementation's answer must equal th
 "is the model still a mirror of the code") and `op? ...` (the driver evaluates the property's own
 predicate — format rules, relative error < 2^(2-p), exact when representable — on the
 implementation's answer: that decides violation)."""
-import os
 from genlib import *
 
 LEAN_MODULES = ["MpirProofs.Props.C13"]
@@ -20,15 +19,23 @@ THEOREMS = ["Mpir.Mpf." + t for t in """
     mpf_add_ui_err mpf_mul_ui_err mpf_set_d_exact_partial mpf_set_d_special wf_preserved
     init2_spec set_prec_spec set_prec_raw_spec
 """.split()]
-TRUSTED = ["hand-written bit-exact mpf model lean/Mpir/Model/Mpf.lean (limb selection, truncation and normalisation mirror mpf/*.c; "
-           "mpn_mul/tdiv_qr/sqrtrem/add/sub/shift are taken at value level) — tied by correspondence on every run",
-           "the predicate evaluator Mpir.Ops.Mpf.evalSpec (exact integer cross-multiplication) is part of the driver"]
+TRUSTED = ["hand-written bit-exact mpf model lean/Mpir/Model/Mpf.lean (limb selection, truncation, case analysis and normalisation mirror "
+           "mpf/*.c with file:line citations; mpn_mul/tdiv_qr/divmod_1/sqrtrem/add/sub/lshift/rshift are taken at value level) — tied by "
+           "correspondence on every run, bit for bit (size, exponent, limbs)",
+           "the predicate evaluator Mpir.Ops.Mpf.evalSpec (format rules, |r-E| < 2^(2-p)|E| by exact integer cross-multiplication, "
+           "exactness when operands and value fit in p bits) is part of the compiled driver, not of a theorem"]
 ASSUMPTIONS = ["64-bit limbs, no nails, BITS_PER_UI == 64 (the pinned x86_64 build)",
-               "operands satisfy the mpf operand rules (top limb non-zero, |size| limbs); they may be longer than their own prec+1 (mpf_set_prec_raw state)"]
+               "operands satisfy the mpf operand rules (proper limbs, |size| limbs, top limb non-zero, zero has exponent 0); they may be longer "
+               "than their own prec+1 (the state mpf_set_prec_raw leaves); destination precision >= 2 limbs (what __GMPF_BITS_TO_PREC yields)",
+               "a destination that is also a (zero-partner / sign-only) operand keeps its stored value: its size must already fit the "
+               "destination precision (hypotheses hau/hav of the theorems; the generator emits the predicate form only then)",
+               "not proved (correspondence + predicate only): mpf_set_d on denormals, floor/ceil/trunc when the integer part exceeds prec+1 "
+               "limbs, mpf_cmp / mpf_eq (model only), get_str/set_str (not modelled here)"]
 RULE = ("destination/operand precisions independently from {2,3,4,5,17} limbs (53,64,65,128,192,1000 bits) + random; exponent differences "
         "-(prec+3)..prec+3 exhaustively per destination precision and huge; operand lengths 1, prec-1, prec, prec+1, prec+2.. (raw); "
-        "x+1|000.. - x|fff.. across 1..6 limb boundaries with tails/one side exhausted; common leading limbs; low zero limbs; equal operands; "
-        "alias modes 0-4; zero operands; ui in {0,1,2^63,2^64-1,..}; div by zero; sqrt of negative; each case in exact and predicate form; "
+        "x+1|000.. - x|fff.. across 0..6 limb boundaries with tails/one side exhausted; common leading limbs; low zero limbs; equal operands; "
+        "alias modes 0-4; zero operands; ui in {0,1,2^63,2^64-1,..}; div by zero; sqrt of negative; doubles at every shift count, denormals, "
+        "NaN/Inf; mpf_eq with n_bits 0; set_prec / set_prec_raw followed by in-place ops; each case in exact and predicate form; "
         "distinct = distinct op lines")
 
 PRECS = [2, 3, 4, 5, 17]
